@@ -51,7 +51,10 @@ func setProcessed(s *stack.Snapshot) {
 }
 
 func c14Oracle(c c14Case) error {
-	opts := &stack.Opts{NameArguments: c.Naming}
+	// two GOPATHs, not in alphabetical order (unused without path guessing, but part of the
+	// snapshot, which shares the slice with the options)
+	wantGopaths := []string{"/zz/gopath", "/aa/gopath"}
+	opts := &stack.Opts{NameArguments: c.Naming, LocalGOPATHs: append([]string(nil), wantGopaths...)}
 	parse := func() (*stack.Snapshot, error) {
 		if c.Race != nil {
 			s, err := scanAloneOpts(c.Race.Print(), opts)
@@ -119,6 +122,9 @@ func c14Oracle(c c14Case) error {
 		}
 		if !reflect.DeepEqual(work, twin) {
 			return fmt.Errorf("after step %d (%v) the snapshot changed", step, names(c.Actions[:step+1]))
+		}
+		if !reflect.DeepEqual(work.LocalGOPATHs, wantGopaths) {
+			return fmt.Errorf("after step %d (%v) the snapshot's LocalGOPATHs are %q, were %q", step, names(c.Actions[:step+1]), work.LocalGOPATHs, wantGopaths)
 		}
 		// Earlier results must not be modified by later calls either.
 		for l := range firstRes {
